@@ -360,8 +360,11 @@ class Check:
             r = run(["go", "build", "./data/...", "./models/...", "./sim/...", "./util/..."], cwd=REPO, env=GOENV)
             if r.returncode != 0:
                 raise Internal("the repository itself does not build:\n" + (r.stderr or "")[-3000:])
-            # The tree compiles but the harness (which uses only its public API, the verif hooks and the generated wrappers)
-            # does not: the correspondence between model and code can no longer be established.
+            # The tree compiles but the harness does not. If the compile errors are about identifiers of the repository's packages
+            # (an API the correspondence relies on changed), the correspondence can no longer be established; any other compile
+            # error is a defect of the harness itself and must not be mistaken for a verdict.
+            if not re.search(r"openwater-core|\b(data|cdata|sim|owio|owjs|fn|routing|rr|storage|generation|functions|conversion|climate|units)\.[A-Z]\w*", msg):
+                raise Internal("harness does not build (not related to the repository's API):\n" + msg[-3000:])
             path, kind = self.write_replay(pid, "no-failing-input-found", seed, tier, workdir, None,
                                            [{"kind": "correspondence", "name": "the harness no longer compiles against the tree "
                                              "(an API the correspondence relies on changed)", "detail": msg[-3000:]}], [])
